@@ -982,7 +982,7 @@ func (r *Raft) AppendEntries(request *AppendEntriesRequest, response *AppendEntr
 		// truncated. This is necessary since a partitioned leader may have
 		// received a membership change request.
 		if entry.Index <= r.configuration.Index {
-			r.nextConfiguration(r.committedConfiguration)
+			r.nextConfiguration(r.latestConfiguration())
 		}
 
 		toAppend = request.Entries[i:]
@@ -991,6 +991,24 @@ func (r *Raft) AppendEntries(request *AppendEntriesRequest, response *AppendEntr
 
 	if err := r.log.AppendEntries(toAppend); err != nil {
 		r.logger.Fatalf("failed to append entries to log: %v", err)
+	}
+
+	// The most recent configuration in the log is used even if it has not been committed yet.
+	// All nodes that hold the entry of a membership change must act on it - a node that keeps
+	// using an older configuration may be several membership changes behind the leader, and
+	// configurations that are more than one change apart need not have a voting member in common.
+	for _, entry := range toAppend {
+		if entry.EntryType != ConfigurationEntry {
+			continue
+		}
+		configuration, err := r.transport.DecodeConfiguration(entry.Data)
+		if err != nil {
+			r.logger.Errorf("failed to decode configuration: error = %v", err)
+			continue
+		}
+		if configuration.Index > r.configuration.Index {
+			r.nextConfiguration(&configuration)
+		}
 	}
 
 	// Only the entries up to the last entry of this request are known to match the log of
@@ -1602,6 +1620,11 @@ func (r *Raft) InstallSnapshot(
 		if err := r.log.DiscardEntries(request.LastIncludedIndex, request.LastIncludedTerm); err != nil {
 			r.logger.Fatalf("failed to discard log entries: error = %v", err)
 		}
+
+		// The configurations from the discarded log entries are no longer in use.
+		if r.committedConfiguration != nil && r.configuration.Index > r.committedConfiguration.Index {
+			r.nextConfiguration(r.committedConfiguration)
+		}
 	}
 	r.lastIncludedIndex = request.LastIncludedIndex
 	r.lastIncludedTerm = request.LastIncludedTerm
@@ -1964,8 +1987,32 @@ func (r *Raft) applyConfiguration(configurationData []byte) {
 	if r.committedConfiguration != nil && configuration.Index <= r.committedConfiguration.Index {
 		return
 	}
-	r.nextConfiguration(&configuration)
+
+	// The configuration is already in use if it is in the log. Do not go back to
+	// it if a more recent configuration from the log is in use by now.
+	if configuration.Index >= r.configuration.Index {
+		r.nextConfiguration(&configuration)
+	}
 	r.committedConfiguration = &configuration
+}
+
+// latestConfiguration returns the most recent configuration in the log or the most
+// recently committed configuration if the log does not contain a more recent one.
+func (r *Raft) latestConfiguration() *Configuration {
+	for index := r.log.LastIndex(); index > r.lastIncludedIndex; index-- {
+		if r.committedConfiguration != nil && index <= r.committedConfiguration.Index {
+			break
+		}
+		entry, err := r.log.GetEntry(index)
+		if err != nil {
+			r.logger.Fatalf("failed to get entry from log: error = %v", err)
+		}
+		if entry.EntryType == ConfigurationEntry {
+			configuration := r.decodeConfiguration(entry.Data)
+			return &configuration
+		}
+	}
+	return r.committedConfiguration
 }
 
 // readOnlyLoop is a long running loop that applies read-only operations to the state machine.
